@@ -22,6 +22,9 @@ var props = map[string]propCfg{
 		{Name: "unit", Pkg: "./props/unit", Test: "TestC14Unit",
 			Quick:    tierCfg{Cases: 3000, Shards: 2, Timeout: 5 * min, ShrinkTime: 20 * sec},
 			Thorough: tierCfg{Cases: 320000, Shards: 16, Timeout: 60 * min, ShrinkTime: 60 * sec}},
+		{Name: "cli", Pkg: "./props/process", Test: "TestC14CLI",
+			Quick:    tierCfg{Cases: 64, Shards: 8, Timeout: 15 * min, ShrinkTime: 60 * sec},
+			Thorough: tierCfg{Cases: 1000, Shards: 16, Timeout: 120 * min, ShrinkTime: 5 * min}},
 	}},
 	"C01": one(part{Pkg: "./props/static", Test: "TestC01",
 		Quick:    tierCfg{Cases: 96, Shards: 6, Timeout: 10 * min, ShrinkTime: 30 * sec},
